@@ -1199,7 +1199,7 @@ fn sweep_tie_rules(ctx: &Ctx, tabs: &Tables, thorough: bool) -> Tally {
 }
 
 /// table + DST rule: the last table transition sits at delta from a rule transition
-fn sweep_junction(ctx: &Ctx, tabs: &Tables, thorough: bool) -> Tally {
+pub fn sweep_junction(ctx: &Ctx, tabs: &Tables, thorough: bool, leap_only: bool) -> Tally {
     let cyc = ctx.cyc;
     let days = quick_days();
     let combos = quick_combos();
@@ -1216,6 +1216,9 @@ fn sweep_junction(ctx: &Ctx, tabs: &Tables, thorough: bool) -> Tally {
                 let mut tl = Tally::default();
                 for (k, &(st, et, o)) in combos.iter().enumerate() {
                     if !thorough && (i + j + k) % 4 != 0 {
+                        continue;
+                    }
+                    if leap_only && (i + j + k) % 8 != 0 {
                         continue;
                     }
                     let r = spec(days[i], days[j], st, et, o);
@@ -1241,7 +1244,7 @@ fn sweep_junction(ctx: &Ctx, tabs: &Tables, thorough: bool) -> Tally {
                             let last_idx = if ty.dst { 1 } else { 0 };
                             // leap-second variants: a record whose UTC instant sits at the rule transition -1/0/+1 (table x rule x
                             // leap seconds), on a subset
-                            let mut leap_variants: Vec<Vec<(i64, i32)>> = vec![vec![]];
+                            let mut leap_variants: Vec<Vec<(i64, i32)>> = if leap_only { vec![] } else { vec![vec![]] };
                             if (i + j + k) % 8 == 0 && x > 4 * DAY28 {
                                 for (c0, step) in [(1i32, 1i32), (1, -1), (-1, -1), (-1, 1)] {
                                     for dpos in [-1i64, 0, 1] {
@@ -1315,7 +1318,7 @@ fn sweep_junction(ctx: &Ctx, tabs: &Tables, thorough: bool) -> Tally {
             tl
         })
         .reduce(Tally::default, Tally::merge);
-    ctx.rec.sub("junction", t.json());
+    ctx.rec.sub(if leap_only { "junction_with_leap_seconds" } else { "junction" }, t.json());
     t
 }
 
@@ -1476,7 +1479,7 @@ pub fn run_sweeps(ctx: &Ctx, tabs: &Tables, thorough: bool, light: bool) -> Tall
     // 3c. first and last years of the rule arithmetic
     total = total.merge(sweep_rule_extreme_years(ctx));
     // 4. junction
-    total = total.merge(sweep_junction(ctx, tabs, thorough));
+    total = total.merge(sweep_junction(ctx, tabs, thorough, false));
     // real zones
     total = total.merge(sweep_corpus(ctx, light));
     // errors
